@@ -45,6 +45,23 @@ CLAIMS = {
             "Union, UnionDisjointStates, Intersection, Reverse, both trimmings and GetCandidateTree on enumerated and random NFAs (eps-accepting, several start states, "
             "one-sided start pairs); TLC decides the language contracts; a crash while dumping a result is a violation.",
             "Trusted: TLC, Layer-0 oracle, the Timbuk parser used for read-back (checked by C13).", "DESIGN.md §4 C10"),
+    "C11": (MC, "TLC model check of the copy-on-write storage model (CowStore refines Value, all interleavings, mutants refuted); TLC-generated and random handle histories replayed on real automata; sequential TLA+ trace validation (TraceValue) of every live handle after every step",
+            "The three-level shared rule storage with its unique()-tests is model-checked against the abstract value specification for every interleaving of "
+            "new/copy/assign/add/clear/final/derive/destroy over 3 handles; the discovery path of every model state and the killer histories of the model mutants are "
+            "replayed on ExplicitTreeAut, and long random histories (tree and finite automata, incl. moves, library operations and repeated queries) are recorded; "
+            "TLC accepts a recorded execution only if it is a behaviour of Value.tla with the logged projection of ALL live handles matching after EVERY step and "
+            "every derived result / verdict satisfying its contract on the current operand values.",
+            "Trusted: TLC, the projection through the public iteration API (checked by C12), Layer-0 oracle for derived results. Bounds: model 3 handles / 2 states / "
+            "5-6 steps; recorded histories 4 handles / 20-60 steps.", "DESIGN.md §4 C11"),
+    "C12": (MC, "random container histories replayed on ExplicitTreeAut with all read-only views logged after every step; sequential TLA+ trace validation (TraceValue: ViewOK)",
+            "After every mutating step TLC checks, for every live handle, that iteration yields each rule exactly once (bag = set = spec value), and that GetAcceptTrans, "
+            "operator[], ContainsTransition (both overloads, incl. never-added rules), GetUsedStates, AreTransitionsEmpty and IsStateFinal agree with the spec value; "
+            "raw symbol numbers are used with several arities.",
+            "Trusted: TLC. The universe of rules/states queried is finite (14 rules, 6 states).", "DESIGN.md §4 C12"),
+    "C16": (MC, "TLC-enumerated LTS x partition x block-preorder cases and random LTSs replayed on ExplicitLTS::computeSimulation; relation compared entry by entry with the greatest fixpoint LTS!GSim",
+            "Every LTS of the bound with every partition and every reflexive-transitive block relation (plus random larger ones with parallel edges and truncated "
+            "output size) is run through the real engine; TLC computes the greatest simulation inside the lifted preorder and compares all k*k entries.",
+            "Trusted: TLC and the gfp definition (the property's wording).", "DESIGN.md §4 C16"),
 }
 
 NOT_APPLICABLE = {
